@@ -19,7 +19,7 @@ RULE = ('molecules of 1..12 fragments on a random reference: random overlaps bet
 ASSUMPTIONS = ['fragments are forced into one molecule through the internal add so the equality rules do not filter the input',
                'each fragment with a read 1 contributes one call per position: the higher-quality mate; equal quality with different bases, or N: no vote']
 MIN_NONTRIVIAL = {'quick': 300, 'thorough': 30000}
-REQUIRED_MONITORS = ['ret:get_consensus', 'ret:get_consensus_dove_safe', 'oracle:positions_compared', 'oracle:tied_positions', 'meta:permutations', 'meta:duplications', 'history:repeated_requests', 'history:grown_molecule']
+REQUIRED_MONITORS = ['ret:get_consensus', 'ret:get_consensus_dove_safe', 'oracle:positions_compared', 'oracle:tied_positions', 'meta:permutations', 'meta:duplications', 'history:repeated_requests', 'history:grown_molecule', 'lib:deep_molecules']
 SHARD_TIMEOUT = {'quick': 900, 'thorough': 5400}
 REF_LEN = 400
 
@@ -42,8 +42,9 @@ def mutate(r, ref_sub, p_mm, p_n):
     return ''.join(out)
 
 
-def make_frag_spec(r, ref, fid, hot):
-    """returns dict(reads=[rec or None, rec or None]) ; hot = positions where disagreement is concentrated"""
+def make_frag_spec(r, ref, fid, hot, stacked=False):
+    """returns dict(reads=[rec or None, rec or None]) ; hot = positions where disagreement is concentrated;
+    stacked: all fragments of the molecule share one geometry, so every position is covered by every fragment"""
     L = len(ref)
     kind = r.choice(['pair'] * 6 + ['single', 'no_r1', 'dove', 'same_orientation'])
     l1, l2 = r.randint(15, 40), r.randint(15, 40)
@@ -54,6 +55,8 @@ def make_frag_spec(r, ref, fid, hot):
         flen = r.randint(10, 30)
     else:
         flen = r.randint(20, 90)
+    if stacked:
+        kind, l1, l2, reverse, s, flen = 'pair', 40, 40, False, 100, 60
     if not reverse:
         r1s, r1e = s, s + l1
         r2e = s + max(flen, 5)
@@ -174,8 +177,12 @@ def run_case(case):
     ref = rand_dna(r, REF_LEN)
     header = make_header([('chr1', REF_LEN)])
     n = r.choice([1, 2, 2, 3, 3, 4, 5, 6, 8, 12])
+    if case['i'] % 40 == 7:
+        # a deeply sequenced molecule: per-position vote counters pass 255 / 256
+        n = r.choice([255, 256, 257, 258, 300])
+        acc.count('lib:deep_molecules')
     hot = [r.randint(30, 200) for _ in range(r.randint(0, 6))]
-    frags = [make_frag_spec(r, ref, i, hot) for i in range(n)]
+    frags = [make_frag_spec(r, ref, i, hot, stacked=n > 100) for i in range(n)]
     # make overlaps likely: shift every fragment near a common anchor
     def build(order, dup=False):
         m = Molecule()
@@ -215,7 +222,7 @@ def run_case(case):
             acc.violate(mech + (':dove_safe' if dove else ''), f'get_consensus(dove_safe={dove}): extra {dict(list(extra.items())[:4])} missing {dict(list(missing.items())[:4])} '
                                                                 f'wrong(got,expected) {dict(list(wrong.items())[:4])}', dict(wit, dove_safe=dove))
         # ---- metamorphic: insertion order and duplication
-        perms = list(itertools.permutations(range(n))) if n <= 5 else [tuple(r.sample(range(n), n)) for _ in range(50)]
+        perms = list(itertools.permutations(range(n))) if n <= 5 else [tuple(r.sample(range(n), n)) for _ in range(50 if n <= 50 else 2)]
         if len(perms) > 24:
             perms = r.sample(perms, 24) if n <= 5 and case['i'] % 4 else perms[:50]
         for perm in perms:
